@@ -131,21 +131,21 @@ def pw : KBox → Bool → KBox × Bool
         (.mk k st el { inst with lcs := inst.lcs || r.setLeading } r.text kids cols,
          r.following && !st.run)
     else
-      let boxInFlow := (KBox.mk k st el inst text kids cols).inFlow
-      let (kids', f) := pwKids boxInFlow kids fcs
+      let (kids', f) := pwKids kids fcs
       (.mk k st el inst text kids' cols, f && !st.run)
-/-- `for child in box.children: …` -/
-def pwKids (boxInFlow : Bool) : List KBox → Bool → List KBox × Bool
+/-- `for child in box.children: …`: the state goes from child to child whatever the box itself is
+(a float, an absolutely positioned box …); only a child out of normal flow leaves it alone. -/
+def pwKids : List KBox → Bool → List KBox × Bool
   | [], f => ([], f)
   | c :: cs, f =>
     if Gen.isSub c.kind .TextBox || Gen.isSub c.kind .InlineBox then
       let (c', cf) := pw c f
-      let f' := if boxInFlow && c.inFlow then cf else f
-      let (cs', f'') := pwKids boxInFlow cs f'
+      let f' := if c.inFlow then cf else f
+      let (cs', f'') := pwKids cs f'
       (c' :: cs', f'')
     else
       let f' := if c.inFlow then false else f
-      let (cs', f'') := pwKids boxInFlow cs f'
+      let (cs', f'') := pwKids cs f'
       (c :: cs', f'')
 end
 
